@@ -33,14 +33,16 @@ Rules0 == << RuleT(PP(<<MolC1>>), Lf("dtype", "equal_to", TypeV(TInt)), <<>>),
              RuleT(PP(<<Coerce(Sb), Part("list", Null, Null, Null, None)>>), Lf("none", "greater_than", I(2)),
                    << <<TStr, "int">> >>) >>
 Docs0 == << MapV(<< <<Sa, S3>>, <<Sb, ListV(<<S7, Sx3, I(1)>>)>>, <<I(1), I(5)>> >>),
-            ListV(<<I(3), I(20), Sa>>) >>
+            ListV(<<I(3), I(20), Sa>>),
+            \* equal to the second document under python ==, typed differently (3.0, True-free): a stale result shows
+            ListV(<<V("float", 24, <<>>), I(20), Sa>>) >>
 Order == StableOrder(Rules0)
 
 \* calls: <<kind, rule index (0 = whole schema), document index>>
 Calls == {<<"validate", 0, d>> : d \in 1..Len(Docs0)} \cup
          {<<"ruletest", r, d>> : r \in 1..Len(Rules0), d \in 1..Len(Docs0)} \cup
          {<<"getdata", r, d>> : r \in {1, 3}, d \in 1..Len(Docs0)} \cup
-         {<<"filter", 1, 2>>}
+         {<<"filter", 1, 2>>, <<"filter", 1, 3>>}
 
 VARIABLES intact, docs, pc, cur, k, sel, si, copy, tests, res, ncalls
 vars == <<intact, docs, pc, cur, k, sel, si, copy, tests, res, ncalls>>
